@@ -151,3 +151,7 @@ package expand
 //@ ensures [resolved-kind] out.Kind != NameRef && out.Kind < KeepValue
 //@ loop 1 invariant [variable-invariant] wfArr(v.List, v.Indexes) && v.Kind < KeepValue
 //@ pure
+
+//@ func Config.varInd
+//@ props C28 C33
+//@ requires [variable-invariant] wfArr(vr.List, vr.Indexes)
